@@ -16,14 +16,17 @@
                         (c) takes a name whose file was removed, or that was the target of a rename, since the last crash, or
                         (d) is itself still under an unflushed rename;
                       or, while the rename is unflushed (no sync_dir of one of the two parents, no crash),
-                        (e) a data operation on the file, or
+                        (e) a data operation on the file, or a data sync of it while its new name still carries
+                            the durable mark of a removed directory or of an earlier flush (i), or
                         (f) rmdir / remove_dir_all of a directory the file was renamed into
      NRenameCrossDir  for such a rename with different parents:
                         (g) sync_dir(old parent) before sync_dir(new parent);
                         (h) sync_dir(new parent) first while the old entry is not durable: at once if the
                             inode never reached the disk, else every operation until the next crash;
                         (i) sync_dir(new parent) first with a durable old entry: any later creation of a
-                            file at the old name (also after crashes)
+                            file at the old name (also after crashes);
+                        (j) sync_dir(new parent) first with a durable old entry after the file was unlinked
+                            at its new name
    No proofs in this file. *)
 From TV.Lib Require Import Base.
 From TV.Fs Require Import FsImpl FsSpec FsSafe FsDurable.
@@ -119,6 +122,16 @@ Definition kclasses (d : dworld) (gh : ghost) (o : op) : list known :=
             end
          ++ kwhen (match touched t o with Some i => in_pren i (gpren gh) | None => false end) NRenameFile
          ++ kwhen (match o with
+                   | SyncAll slot | SyncData slot =>
+                       match sget (shs t) slot with
+                       | Some h => existsb (fun r => let '(i, f, g) := r in
+                                              (i =? sino h)
+                                              && ((match nget (dents d) g with Some EDir => true | _ => false end)
+                                                  || mem_path g (gstale gh))) (gpren gh)
+                       | None => false
+                       end
+                   | _ => false end) NRenameFile
+         ++ kwhen (match o with
                    | Rmdir p | RmdirAll p => existsb (fun r => is_prefix p (snd r)) (gpren gh)
                    | _ => false end) NRenameFile
          ++ match o with
@@ -130,8 +143,11 @@ Definition kclasses (d : dworld) (gh : ghost) (o : op) : list known :=
                       let pf := child_of f p in let pg := child_of g p in
                       if (pf || pg) && negb (pf && pg) then
                         if pf then [NRenameCrossDir]
-                        else kwhen (negb (match nget (dents d) f with Some (EFile j) => j =? i | _ => false end)
-                                    && negb (persisted d i)) NRenameCrossDir
+                        else
+                          let srcdur := match nget (dents d) f with Some (EFile j) => j =? i | _ => false end in
+                          kwhen (negb srcdur && negb (persisted d i)) NRenameCrossDir
+                          ++ kwhen (srcdur && negb (match nget (names t) g with Some (EFile j) => j =? i | _ => false end))
+                                   NRenameCrossDir
                       else []) (gpren gh)
                 | _ => []
                 end
